@@ -177,6 +177,46 @@ CLAIMED = {
          "only after a grace period, destroy at quiescence, malloc succeeds).",
     technique="Lean 4 inductive invariant (26 clauses) + forward-simulation refinement to a sequential FIFO on an executable step-level model; event-level trace refinement of the real source with independent oracles",
     design_ref="§4 C12, §10.4", engine="lfq"),
+ "C10": dict(
+    text="Lean 4 theorems on x86-TSO explicit-pc models of cds_wfcq (Wfcq/Model.lean: two queues, any number of threads, per-thread FIFO "
+         "store buffers, splice both ways, first/next, blocking and non-blocking variants, node re-use, consumer role = mutex or single "
+         "consumer) and of the legacy cds_wfq (Wfq/Model.lean, dummy node), for every reachable state and interleaving incl. enqueuers "
+         "suspended between the tail exchange and the link store. wfcq_refines_fifo: the history of linearisation events, with results "
+         "computed from concrete memory, is a legal sequential two-queue FIFO history, concrete memory represents the abstract "
+         "contents, and every step is a stutter or the sequential operation. Also: each_node_dequeued_once (conservation incl. in-flight "
+         "enqueues and chains in transit), dequeue_order, state_LAST_correct (the last-node cmpxchg race), enqueue_ret_consistent, "
+         "empty_consistent, dequeue_null_iff_empty_at_some_instant and null_only_from_empty, splice_moves_all_in_order_and_empties_"
+         "source (source reusable), iteration_exact, wfq_is_fifo, wfq_each_node_once, C10_full_holds; necessity witnesses checked by "
+         "decide (no wait on a NULL next loses a node, empty() testing only head, splice without tail reset). Tie: the real "
+         "src/wfcqueue.c and src/wfqueue.c with their static headers, under the macro shim and the cooperative scheduler, in 5 "
+         "configurations; every trace replayed by Driver/Wfcq.lean on the models; independent C oracles (reference FIFO updated at the "
+         "tail exchanges: order, NULL/empty answers, return values, STATE_LAST, splice, iteration, conservation); random walk, PCT and a "
+         "one-preemption sweep over every xchg->store window; required-branch coverage.",
+    note="Trusted: Lean kernel; x86-TSO machine; API contracts as model guards (a node is enqueued only when in no queue and with no store "
+         "in flight, because node hand-off synchronises; next() only on a queued node; consumer role); L1 ⊑ L2 checked on the explored "
+         "schedules only; plain accesses seen through later atomic loads; the legacy queue has a step-level refinement, not a "
+         "history-level theorem.",
+    technique="Lean 4 inductive invariant (one lemma per label) and refinement proofs on TSO transition systems with ghost abstract queues and linearisation events + event-level trace refinement of the real sources",
+    design_ref="§4 C10", engine="wfcq"),
+ "C17": dict(
+    text="Lean 4 solo-run theorems on the step-level models of the components (all other threads frozen at arbitrary points of any "
+         "reachable state; explicit bound or strictly decreasing measure on own steps, own-buffer drains included). Read side "
+         "(Props/C17Read.lean, C01 model, for every state): read_lock_wait_free (3 + |own buffer| + 1 own steps), "
+         "read_lock_never_blocked, nested/outer lock and unlock one store each, others_cannot_delay_reader, forced_fence_helps, qsbr "
+         "reader ops never blocked. Stacks (Props/C17Stacks.lean): wfs_push_wait_free (<= 4), wfs/lfs_pop_all_one_rmw, "
+         "lfs_push/pop_solo_terminates (<= 6 / 5), *_cas_fails_only_by_interference, wfs_nonblocking_pop/next_never_waits, "
+         "wouldblock_only_if_inflight, nonblocking_quiet_succeeds, wouldblock_changes_nothing. wfcqueue (Props/C17Wfcq.lean): "
+         "enqueue_wait_free (|own buffer| + 3), nonblocking_never_waits (<= 11 + |own buffer|), wouldblock_only_if_inflight, "
+         "nonblocking_quiet_succeeds, wouldblock_changes_nothing. rculfqueue (Props/C17Lfq.lean): lfq_never_waits, every own step "
+         "decreases the measure mu (tail lag + 6 per dummy + constant), enqueue <= 8 / dequeue <= mu own steps, "
+         "cas_fails_only_by_interference, link_retry_succeeds. Tie: freeze / solo-run schedules of the real sources under the cooperative "
+         "runtime (spin hints distinguish waiting from working; own primitives counted against the model bound); the read-side "
+         "primitives through the C01 trace refinement (straight-line L1 transliteration). Partial: the hash-table facet (lookup / "
+         "traversal wait-free, add / del / replace lock-free) is added when the C05 component is integrated.",
+    note="Trusted: Lean kernel; x86-TSO; blocking operations (*_blocking, sync_next, mutex-taking wrappers) are not claimed; tie on explored "
+         "freeze schedules only; hash-table facet pending (listed under facets_not_built_yet in the evidence).",
+    technique="Lean 4 termination-measure / bounded-solo-run proofs on TSO transition systems + freeze-schedule trace refinement of the real sources",
+    design_ref="§4 C17", engine="progress"),
  "C14": dict(
     text="Lean 4 theorems poll_sound / poll_monotone / poll_no_stuck / poll_progress (inductive invariant over all operation "
          "interleavings, any number of readers and handles) on an executable model of urcu-poll-impl.h; the model is tied to "
